@@ -219,6 +219,16 @@ class Gen:
         r = self.rng
         return [r.choice(SCHEMES), r.choice(HOSTS if r.random() < 0.7 else HOSTS[:4]), r.choice(paths)]
 
+    def touch(self, ops, p):
+        """With probability p, query a URL the cookie just set should match (this is what fills the jar's cache of
+        built morsels, so that a later overwrite / expiry / reload has something stale to serve)."""
+        r = self.rng
+        if r.random() < p:
+            _, (sch, h, up), attrs = ops[-1]
+            a = attrs[-1]
+            path = a["path"] if (a["path"] or "").startswith("/") else up
+            ops.append(["filter", ["https" if a["secure"] else sch, h, path.rstrip("/") + r.choice(["", "/", "/x"])]])
+
     def focused(self):
         """Few hosts, one or two names, short deadlines: histories in which cookies collide on (domain, name),
         are overwritten across host-only / Domain=, expire one by one and go through save+load."""
@@ -240,6 +250,7 @@ class Gen:
                     t = now + r.choice([5, 10, -5])
                     a["expires"] = (http_date(t), t)
                 ops.append(["set", [r.choice(["http", "https"]), h, r.choice(["/", "/foo/x", "/bar"])], [a]])
+                self.touch(ops, 0.35)
             elif x < 0.68:
                 dt = r.choice([1, 5, 5, 6, 10])
                 now += dt
@@ -264,6 +275,7 @@ class Gen:
             if x < 0.42:
                 u = self.url(REQ_PATHS)
                 ops.append(["set", u, [self.attrs(now) for _ in range(1 if r.random() < 0.8 else 2)]])
+                self.touch(ops, 0.2)
             elif x < 0.57:
                 dt = r.choice([0, 1, 4, 5, 6, 10, 45, 50, 100])
                 now += dt
